@@ -526,6 +526,13 @@ class CallsMixin:
                 if k_ == args[0]:
                     return v_
             return args[1] if len(args) > 1 else NONE
+        if name == "index" and recv.k in ("tuple", "list") and len(args) == 1 and args[0].k == "const" and all(x_.k == "const" for x_ in recv.a[0]):
+            vals_ = [x_.a[0] for x_ in recv.a[0]]
+            if args[0].a[0] in vals_:
+                return C(vals_.index(args[0].a[0]))
+            self.log_raise("ValueError", env, node, kind="index")
+            env.dead = True
+            return NONE
         if name in ("get",) and recv.ty == "dict":
             return T("call", "dictget", (recv, args[0]))
         if name in ("startswith", "endswith") and len(args) == 1 and args[0].k == "const" and isinstance(args[0].a[0], (bytes, bytearray)) \
